@@ -7,6 +7,7 @@ package main
 import (
 	"encoding/json"
 	"fmt"
+	"hash/fnv"
 	"os"
 	"os/exec"
 	"path/filepath"
@@ -37,8 +38,8 @@ type xfNode struct {
 }
 
 type xfCase struct {
-	Arch    []xfEntry `json:"arch"`
-	Pre     []struct {
+	Arch []xfEntry `json:"arch"`
+	Pre  []struct {
 		Path []string `json:"path"`
 		Node xfNode   `json:"node"`
 	} `json:"pre"`
@@ -57,7 +58,12 @@ func (t xfTarget) str(w string) string {
 	return strings.Join(t.Segs, "/")
 }
 
+// mkDir is the directory encoder in use: plain UnixFS directories, or HAMT shards (form 3)
 func xfLinks(bs *blockSet, es []xfEntry, w string) []pbLink {
+	return xfLinksWith(bs, es, w, bs.dir)
+}
+
+func xfLinksWith(bs *blockSet, es []xfEntry, w string, mkDir func([]pbLink) pbLink) []pbLink {
 	var out []pbLink
 	for _, e := range es {
 		var l pbLink
@@ -67,7 +73,7 @@ func xfLinks(bs *blockSet, es []xfEntry, w string) []pbLink {
 		case "link":
 			l = bs.symlink(e.To.str(w))
 		case "dir":
-			l = bs.dir(xfLinks(bs, e.Ch, w))
+			l = mkDir(xfLinksWith(bs, e.Ch, w, mkDir))
 		}
 		l.Name = strings.Join(e.N, "/")
 		out = append(out, l)
@@ -161,6 +167,10 @@ func runExtractCase(carBin string, c *xfCase, base string, form int) (string, st
 		}
 	}
 	bs := newBlockSet()
+	mkDir := bs.dir
+	if form == 3 { // every directory, the root included, is a HAMT shard
+		mkDir = bs.hamtDir
+	}
 	var roots []cid.Cid
 	hasFileRoot := false
 	for _, e := range c.Arch {
@@ -171,7 +181,7 @@ func runExtractCase(carBin string, c *xfCase, base string, form int) (string, st
 		var run []xfEntry
 		flush := func() {
 			if len(run) > 0 {
-				roots = append(roots, bs.dir(xfLinks(bs, run, w)).Cid)
+				roots = append(roots, mkDir(xfLinksWith(bs, run, w, mkDir)).Cid)
 				run = nil
 			}
 		}
@@ -190,7 +200,7 @@ func runExtractCase(carBin string, c *xfCase, base string, form int) (string, st
 		r2 := bs.dir(xfLinks(bs, c.Arch[1:], w))
 		roots = []cid.Cid{r1.Cid, r2.Cid}
 	} else {
-		roots = []cid.Cid{bs.dir(xfLinks(bs, c.Arch, w)).Cid}
+		roots = []cid.Cid{mkDir(xfLinksWith(bs, c.Arch, w, mkDir)).Cid}
 	}
 	carPath := filepath.Join(sand, "in.car")
 	os.WriteFile(carPath, bs.carV1(roots), 0o644)
@@ -251,12 +261,12 @@ func runExtractCase(carBin string, c *xfCase, base string, form int) (string, st
 		}
 	}
 	realErr := err != nil && !strings.Contains(string(outb), "no files extracted")
-	if realErr != c.Aborted && form == 0 {
+	if realErr != c.Aborted && (form == 0 || form == 3) {
 		drift = append(drift, fmt.Sprintf("exit error %v (%s), model aborted=%v", err, strings.TrimSpace(string(outb)), c.Aborted))
 	}
 	sort.Strings(drift)
 	ds := ""
-	if len(drift) > 0 && form == 0 {
+	if len(drift) > 0 && (form == 0 || form == 3) {
 		ds = strings.Join(drift, "; ")
 	}
 	return "", "", ds
@@ -273,6 +283,7 @@ func hasFroot(c *xfCase) bool {
 
 func runExtractReplay(args []string) int {
 	in, out, carBin := args[0], args[1], args[2]
+	allHamt := len(args) > 3 && args[3] == "hamt=all"
 	rep := newReport("extract")
 	jobs := make(chan []byte, 256)
 	var wg sync.WaitGroup
@@ -290,14 +301,22 @@ func runExtractReplay(args []string) int {
 					rep.inconclusive("bad record: " + err.Error())
 					continue
 				}
-				for form := 0; form < 3; form++ {
+				hs := fnv.New32a()
+				hs.Write([]byte(canon(c.Arch) + canon(c.Pre)))
+				for form := 0; form < 4; form++ {
 					if form == 1 && (len(c.Arch) < 2 || hasFroot(&c)) {
 						continue
+					}
+					if form == 3 && !allHamt && hs.Sum32()%4 != 0 {
+						continue // HAMT-sharded encoding: every fourth archive (all of them with hamt=all)
+					}
+					if form == 3 {
+						rep.count("hamt_encoded_runs", 1)
 					}
 					cls, msg, drift := runExtractCase(carBin, &c, base, form)
 					rep.eval(canon(c.Arch)+canon(c.Pre)+fmt.Sprint(form), true)
 					if cls != "" {
-						rep.violate("extract/"+cls+"/"+kindsOf(&c), fmt.Sprintf("archive [%s] (%s roots) pre %s: %s", shapeOf(c.Arch), map[int]string{0: "one", 1: "two", 2: "one, output dir '.'"}[form], canon(c.Pre), msg),
+						rep.violate("extract/"+cls+"/"+kindsOf(&c), fmt.Sprintf("archive [%s] (%s roots) pre %s: %s", shapeOf(c.Arch), map[int]string{0: "one", 1: "two", 2: "one, output dir '.'", 3: "one, HAMT-sharded directories"}[form], canon(c.Pre), msg),
 							map[string]any{"family": "extract", "case": c, "form": form})
 					}
 					if drift != "" {
